@@ -105,6 +105,26 @@ var seedExpectations = []seedExpect{
 	{"C14-c", "C14", "clone.fresh", "ir.CloneModuleForOverrides+ProcessOverrides:Functions[].LocalVars[].Init"},
 	{"C15-c", "C15", "operands.Block.walker", "spirv/internal/codegen.Backend.collectGlobalVarsFromStatements/StatementKind:StmtLoop.Continuing"},
 	{"C19-a", "C08", "scope.defafterinit", "wgsl/internal/parser.collectStmtDeps:locals[s.Name]"},
+	// fifth batch (-e) and the two -d seeds caught since
+	{"C01-e", "C01", "order.pair", "emitDot4PackedPolyfill:cross:arg1ID"},
+	{"C02-e", "C02", "image.depthlike", "emitImageQuery"},
+	{"C01-d", "C01", "image.depthlike", "emitImageQuery"},
+	{"C04-d", "C04", "image.depthlike", "imageNeedsLod"},
+	{"C03-e", "C03", "bitscan.width", "writeMathExpression"},
+	{"C04-e", "C04", "parens.bakedonly", "needsParens"},
+	{"C06-e", "C06", "shortcircuit.const", "lowerLogicalShortCircuit"},
+	{"C07-e", "C07", "attrs.independent", "lowerStruct"},
+	{"C08-e", "C08", "shape.samefield", "typeShapeMatches"},
+	{"C09-e", "C09", "accum.lazyinit", "collectBinding"},
+	{"C17-e", "C17", "accum.lazyinit", "collectBinding"},
+	{"C11-e", "C11", "flag.nest", "validateStatement"},
+	{"C12-e", "C12", "reset.complete", "workgroupInitVars"},
+	{"C13-e", "C13", "blockpred.quantifier", "blockOnlyHasTerminators"},
+	{"C14-e", "C14", "copy.writeback", "remapBlockHandles"},
+	{"C15-e", "C15", "bounds.strict", "accessNeedsRestrict"},
+	{"C16-e", "C16", "names.fresh", "writeSamplerIndexBuffer"},
+	{"C18-e", "C18", "precedence.arraysize", "collectPSVResources"},
+	{"C19-e", "C08", "reset.complete", "Lowerer.localIsPtr"},
 	// hand-made positive controls (controls/)
 	{"globals-write", "C12", "globals.nowrite", "typeNameCache"},
 	{"rzsw-nomerge", "C02", "spirv.mergefirst", "emitImageLoadRZSW"},
